@@ -76,7 +76,10 @@ def run_cfg(job):
         pm = model(None, apuvar)
         # (InventoryGen.tla AltProfiles: the synthetic flight on one of the three altitude profiles, by configuration)
         prof = ('high', 'low', 'ref_level')[sum(map(ord, json.dumps(cfgd, sort_keys=True))) // 3 % 3]
-        traj = synthetic_traj([0, 2000, 0, 5000, 1000, 2000], 2, 2, profile=prof) if which == 'synthetic' else real_traj()
+        # (InventoryGen.tla phase splits: the synthetic flight has climb and descent points, or no descent points, or no
+        # climb points - a phase may be empty)
+        nc_, nd_ = ((2, 2), (2, 0), (0, 2))[sum(map(ord, json.dumps(cfgd, sort_keys=True))) // 7 % 3]
+        traj = synthetic_traj([0, 2000, 0, 5000, 1000, 2000], nc_, nd_, profile=prof) if which == 'synthetic' else real_traj()
         allowed = [(o['kind'], o['method']) for o in case['outcomes']]
         short = {k: cfgd[k] for k in FIELDS}
         try:
